@@ -171,3 +171,7 @@ impl Ord for IndexBlob {
         self.location.cmp(&other.location)
     }
 }
+
+#[cfg(kani)]
+#[path = "/verif/harness/repofile_indexfile.rs"]
+pub(crate) mod verif_harness;
